@@ -190,17 +190,23 @@ def run(ctx):
     t = time.time()
     if model_ok and sem_items:
         files = {}
-        chunk = 250
+        chunk = 300
         for k in range(0, len(sem_items), chunk):
-            lines = []
+            lines, defs, names = [], [], {}
             for c, inputs in sem_items[k:k + chunk]:
                 iv = "[" + "; ".join(L.coq_val(v) for v in inputs) + "]"
-                sub = str(c["params"]["n"]) if c["family"] == "next_some" else c.get("sym")
-                es = L.coq_seq(c["region"]["instrs"], sub)
-                model = c["model"].replace(str(L.SENTINEL_N), str(c["params"]["n"])) if c["family"] == "next_some" else c["model"]
-                lines.append(f"(enc_outcome (run_outs {es} {L.coq_nats(c['region']['outs'])} {iv}), "
-                             f"enc_outcome (run_outs ({model}) ({c['outs']}) {iv}))")
-            files[f"sem{k // chunk}"] = COQ_HEAD + "Definition rs : list (list Z * list Z) := [\n" + ";\n".join(lines) + "].\nEval vm_compute in rs.\n"
+                if c["id"] not in names:
+                    sub = str(c["params"]["n"]) if c["family"] == "next_some" else c.get("sym")
+                    model = c["model"].replace(str(L.SENTINEL_N), str(c["params"]["n"])) if c["family"] == "next_some" else c["model"]
+                    nm = f"s{len(names)}"
+                    names[c["id"]] = nm
+                    defs.append(f"Definition e_{nm} := {L.coq_seq(c['region']['instrs'], sub)}.\n"
+                                f"Definition eo_{nm} := {L.coq_nats(c['region']['outs'])}.\n"
+                                f"Definition m_{nm} := {model}.\nDefinition mo_{nm} := {c['outs']}.")
+                nm = names[c["id"]]
+                lines.append(f"(enc_outcome (run_outs e_{nm} eo_{nm} {iv}), enc_outcome (run_outs m_{nm} mo_{nm} {iv}))")
+            files[f"sem{k // chunk}"] = (COQ_HEAD + "\n".join(defs) + "\nDefinition rs : list (list Z * list Z) := [\n"
+                                         + ";\n".join(lines) + "].\nEval vm_compute in rs.\n")
         try:
             outs = ctx.coq_eval_many(files)
             vals = []
